@@ -97,8 +97,12 @@ class ClassInfo:
         inst = cls(3, "t")
         self.init = {}
         self.locks = {}
+        self.events = {}
         for k, v in vars(inst).items():
-            if isinstance(v, _LOCK_T):
+            if isinstance(v, threading.Event):
+                self.events[k] = True
+                self.init[k] = ("const", bool(v.is_set()))
+            elif isinstance(v, _LOCK_T):
                 self.locks[k] = "Lock"
             elif isinstance(v, _RLOCK_T):
                 self.locks[k] = "RLock"
@@ -173,6 +177,15 @@ def _call_effect(fav, args, kwargs, pos, ci, newreg):
             if name in ("release", "__exit__"):
                 return Ins("rel", recv[1], pos=pos), ("const", None)
             raise LoweringError("line %s: lock method %s not modelled" % (pos, name))
+        if recv[0] == "evt":
+            if name == "set":
+                return Ins("write", recv[1], ("const", True), pos=pos), ("const", None)
+            if name == "clear":
+                return Ins("write", recv[1], ("const", False), pos=pos), ("const", None)
+            if name in ("is_set", "isSet"):
+                r = newreg()
+                return Ins("read", r[1], recv[1], pos=pos), r
+            raise LoweringError("line %s: Event.%s is not modelled" % (pos, name))
         if recv[0] in ("reg", "param"):
             if name in ("start", "cancel", "join"):
                 if name == "join" and (args or kwargs):
@@ -244,9 +257,8 @@ _GENERIC = {
 
 def lower_bytecode(fn, ci, selfname=None):
     """abstract interpretation of the bytecode of one method -> MethodIR (1 IR ins per bytecode ins)"""
-    if sys.version_info[:2] != (3, 12):
-        # the table below is for 3.12; other versions fail on the first unknown opcode (exit 2, honest)
-        pass
+    # the opcode table below is for CPython 3.12; on other versions the first unknown opcode raises
+    # LoweringError (the check then exits 2: no verdict rather than a wrong one)
     code = fn.__code__
     argn = code.co_argcount + code.co_kwonlyargcount
     names = list(code.co_varnames[:argn])
@@ -283,7 +295,6 @@ def lower_bytecode(fn, ci, selfname=None):
     work = [0]
     kwnames = {}
     ret_self = []
-    cur_line = [None]
 
     def flow(k, st):
         if k >= n:
@@ -338,7 +349,7 @@ def lower_bytecode(fn, ci, selfname=None):
             L[i.argval] = OTHER
         elif op == "STORE_FAST":
             v = pop()
-            L[i.argval] = v if v[0] in ("reg", "param", "const", "self", "lock", "py", "selfmeth", "bx") else OTHER
+            L[i.argval] = v if v[0] in ("reg", "param", "const", "self", "lock", "evt", "py", "selfmeth", "bx") else OTHER
         elif op == "LOAD_CONST":
             S.append(("const", i.argval))
         elif op == "RETURN_CONST":
@@ -370,6 +381,8 @@ def lower_bytecode(fn, ci, selfname=None):
             if recv == SELF:
                 if name in ci.locks:
                     val = ("lock", name)
+                elif name in ci.events:
+                    val = ("evt", name)
                 elif ci.is_method(name):
                     val = ("selfmeth", name)
                 else:
@@ -395,8 +408,8 @@ def lower_bytecode(fn, ci, selfname=None):
             recv = pop()
             v = pop()
             if recv == SELF:
-                if i.argval in ci.locks:
-                    raise LoweringError("line %s: lock attribute %s is reassigned" % (pos, i.argval))
+                if i.argval in ci.locks or i.argval in ci.events:
+                    raise LoweringError("line %s: lock/event attribute %s is reassigned" % (pos, i.argval))
                 res = Ins("write", i.argval, irval(v), pos=pos)
         elif op == "KW_NAMES":
             kwnames[k + 1] = i.argval
@@ -571,7 +584,7 @@ def _cond_ins(kind, v, sense, tgt, k, pos):
         if val == sense:
             return Ins("jmp", c=tgt, pos=pos), [tgt]
         return Ins("nop", pos=pos), [k + 1]
-    if v[0] in ("self", "selfmeth", "py", "lock", "exitfn", "meth"):
+    if v[0] in ("self", "selfmeth", "py", "lock", "evt", "exitfn", "meth"):
         val = False if kind == "none" else True
         if val == sense:
             return Ins("jmp", c=tgt, pos=pos), [tgt]
@@ -658,7 +671,7 @@ class _AstLower:
             if val == sense:
                 self.emit(Ins("jmp", c=lab, pos=pos))
             return
-        if v[0] in ("self", "selfmeth", "py", "lock", "exitfn", "meth", "prog", "progcls"):
+        if v[0] in ("self", "selfmeth", "py", "lock", "evt", "exitfn", "meth", "prog", "progcls"):
             val = False if kind == "none" else True
             if val == sense:
                 self.emit(Ins("jmp", c=lab, pos=pos))
@@ -782,7 +795,7 @@ class _AstLower:
             raise LoweringError("line %s: assignment target %s" % (self.pos(t), type(t).__name__))
 
     def bind(self, name, v):
-        keep = ("reg", "param", "const", "self", "lock", "py", "selfmeth", "bx", "prog", "progcls")
+        keep = ("reg", "param", "const", "self", "lock", "evt", "py", "selfmeth", "bx", "prog", "progcls")
         self.env[name] = v if v[0] in keep else OTHER
 
     def escape(self, v, node):
@@ -952,8 +965,6 @@ class _AstLower:
             envs = [self.env]
             for h in s.handlers:
                 self.env = dict(env0)
-                for k_ in list(self.env):
-                    pass
                 lnext = Label()
                 m = True
                 if h.type is not None:
@@ -977,8 +988,6 @@ class _AstLower:
                     break
             else:
                 self.emit(Ins("raise", pos=self.pos(s)))
-            if m is True:
-                pass
             env = envs[0]
             for e in envs[1:]:
                 env = self._join_env(env, e)
@@ -1094,6 +1103,8 @@ class _MethodAst(_AstLower):
         if recv == SELF:
             if name in self.ci.locks:
                 return ("lock", name)
+            if name in self.ci.events:
+                return ("evt", name)
             if self.ci.is_method(name):
                 return ("selfmeth", name)
             r = self.newreg()
@@ -1108,8 +1119,8 @@ class _MethodAst(_AstLower):
 
     def store_attr(self, recv, name, v, node):
         if recv == SELF:
-            if name in self.ci.locks:
-                raise LoweringError("line %s: lock attribute %s is reassigned" % (self.pos(node), name))
+            if name in self.ci.locks or name in self.ci.events:
+                raise LoweringError("line %s: lock/event attribute %s is reassigned" % (self.pos(node), name))
             self.emit(Ins("write", name, irval(v), pos=self.pos(node)))
 
     def ev(self, n):
@@ -2204,7 +2215,8 @@ class _ApiAst(_AstLower):
                 if f[1][1] == self.target:
                     if f[2] in ("enter", "exit", "update", "__enter__", "__exit__"):
                         nargs = len(n.args)
-                        self.emit(Ins("call", f[2], tuple(OTHER for _ in range(nargs)), pos=self.pos(n)))
+                        ap = self.abs_pos(n)
+                        self.emit(Ins("call", f[2], tuple(OTHER for _ in range(nargs)), d=(ap[2], ap[3]), pos=self.pos(n)))
                         if f[2] in ("enter", "__enter__") and self.enter_returns_self:
                             return f[1]
                         return OTHER
@@ -2262,7 +2274,9 @@ class _ApiAst(_AstLower):
 
     def with_exit(self, cm, node, exc):
         if cm[0] == "prog" and cm[1] == self.target:
-            self.emit(Ins("call", "__exit__", (OTHER, OTHER, OTHER), pos=self.pos(node)))
+            ap = self.abs_pos(node)
+            # the compiled `with` exit is a CALL located at the context expression: optional match in accepts()
+            self.emit(Ins("call", "__exit__", (OTHER, OTHER, OTHER), d=("opt", (ap[2], ap[3])), pos=self.pos(node)))
             return self.exit_suppresses
         self.fault(node, "with-exit")
         return cm[0] != "prog"
@@ -2357,6 +2371,61 @@ def lower_ast_api(fn, util_mod, target, unroll=2, enter_returns_self=True, exit_
     mir.sites = lw.sites
     mir.nprog = len(lw.progsites)
     return mir
+
+
+def accepts(mir, observed):
+    """does the lowered control-flow graph of an API function (lowered with unroll=None, i.e. with real
+    loops) accept the sequence of call expressions that a real fault-free run executed?
+    observed: [(end_lineno, end_col), ...] of the CALL events in the function's code object.
+    Fault lists may match any number of their sites (pure regions are executed 0..n times).
+    -> (ok, number of observed calls matched, number ignored because they are no call expression of the AST)"""
+    code = mir.code
+    site_pos = {s_.id: (s_.pos[2], s_.pos[3]) for s_ in mir.sites}
+    known = set(site_pos.values()) | {(i.d[1] if i.d[0] == "opt" else i.d) for i in code if i.op == "call" and i.d}
+    fkeys = {}
+    for p, i in enumerate(code):
+        if i.op == "fault":
+            fkeys[p] = {site_pos[e[0]] for e in i.a}
+
+    def closure(pcs):
+        out, work = set(), list(pcs)
+        while work:
+            p = work.pop()
+            if p in out or p is None or p >= len(code):
+                continue
+            out.add(p)
+            i = code[p]
+            if i.op == "jmp":
+                work.append(i.c)
+            elif i.op in ("cj", "nd"):
+                work += [i.c, p + 1]
+            elif i.op in ("nop", "fault"):
+                work.append(p + 1)
+            elif i.op == "call" and (not i.d or i.d[0] == "opt"):
+                work.append(p + 1)
+        return out
+    cur = closure({0})
+    matched = ignored = 0
+    for k in observed:
+        if k not in known:
+            ignored += 1
+            continue
+        nxt = set()
+        for p in cur:
+            i = code[p]
+            if i.op == "fault" and k in fkeys[p]:
+                nxt.add(p)
+            elif i.op == "call" and (i.d == k or i.d == ("opt", k)):
+                nxt.add(p + 1)
+        if not nxt:
+            # the compiled exit of `with` is a CALL whose reported location is version dependent: it may consume k
+            nxt = {p + 1 for p in cur if code[p].op == "call" and code[p].d and code[p].d[0] == "opt"}
+        if not nxt:
+            return False, matched, ignored
+        matched += 1
+        cur = closure(nxt)
+    ok = any(code[p].op == "ret" for p in cur)
+    return ok, matched, ignored
 
 
 def discover_apis(pkg):
